@@ -96,7 +96,10 @@ def effect_sig(w, fw, lf):
             kind = "Stat"
         else:
             kind = e.kind
-        fl = tuple(sorted((k, v) for k, v in e.flags.items() if k in ("read", "write", "append", "create", "truncate", "recursive", "op") and v))
+        # write_all / write_fmt / write_all_vectored are one observable operation (all bytes or an error); how many
+        # system calls they take is a concurrency matter (C07), not a difference between flavours
+        fl = tuple(sorted((k, ("write_all" if k == "op" and v in ALL_OR_ERROR_WRITES else v)) for k, v in e.flags.items()
+                          if k in ("read", "write", "append", "create", "truncate", "recursive", "op") and v))
         if lf.outer.reachable:
             ex = fw.expanded(e)
             for role, cs in ex.items():
@@ -181,7 +184,7 @@ def ext_calls(w, lf):
 def handling_sig(w, lf, _seen=None):
     """How the function treats the error of each fallible call it makes: propagated with `?`/return, matched on
     (conditionally tolerated), tested with is_ok/is_err, or discarded."""
-    from .c13 import sources, propagation_leaves
+    from .c13 import sources, propagation_leaves, discard_kind
     prog = w.prog
     out = set()
     prop = None
@@ -208,6 +211,7 @@ def handling_sig(w, lf, _seen=None):
         name = re.sub(r"^RT::AsyncWrite::poll_(write|flush|close)$", r"std::io::Write::\1", name)
         name = re.sub(r"^(std::iter::Iterator|RT::StreamExt)::next$", "next", name)
         name = re.sub(r"^RT::task::spawn_blocking$", "spawn_blocking", name)
+        name = re.sub(r"^std::io::Write::(write_fmt|write_all_vectored)$", "std::io::Write::write_all", name)
         cls = "discarded"
         if prop is None:
             prop = propagation_leaves(w, lf)
@@ -232,8 +236,19 @@ def handling_sig(w, lf, _seen=None):
                 for o in prog.resolve_op(b, tt.args[0], OKFLOW, bb.i):
                     if o.kind == "call" and o.body is b and o.blk == blk.i:
                         cls = "tested" if cls in ("propagated", "tested") else cls
+        if name == "std::fs::metadata" and cls == "discarded" and discard_kind(prog, b, blk, t) in ("is_ok", "is_err"):
+            continue     # an existence probe (the sync flavour asks Path::exists(), which is not a fallible call at all)
         out.add((name, cls))
     return out
+
+
+def _is_flush(item):
+    """An effect-signature or handling-signature item that denotes a flush."""
+    if len(item) == 4 and item[0] == "WriteData":
+        return ("op", "flush") in item[1]
+    if len(item) == 2 and isinstance(item[0], str):
+        return item[0].endswith("::flush") and item[1] == "propagated"
+    return False
 
 
 def twin_name(p):
@@ -298,6 +313,9 @@ def check_sync_async(cfg, w, rep):
             if comp == "handling" and short(p) in ACCEPTED_HANDLING:
                 rep.ob(cfg, "accepted-difference", key + ":handling", ACCEPTED_HANDLING[short(p)])
                 continue
+            # a flush that only the async flavour performs is a staging detail: flushing a std::fs::File is a no-op,
+            # while the runtimes' files complete (and report) their writes only on flush. The converse is reported.
+            only_a = {x for x in only_a if not _is_flush(x)}
             if comp == "roles":
                 only_s = {_twin_role(x) for x in only_s}
                 only_a = {_twin_role(x) for x in only_a}
